@@ -12,7 +12,7 @@ Definition ser_of (t : tab) (e : wentry) : list byte :=
 Definition deser_of (t : tab) (b : list byte) : option wentry :=
   match find (fun p => list_eqb N.eqb (snd p) b) t with Some p => Some (fst p) | None => None end.
 
-Definition the_cfg : cfg := Cfg gen_ghost_fixed gen_replay_index_fixed gen_tail_repair gen_put_meta_first.
+Definition the_cfg : cfg := Cfg gen_ghost_fixed gen_replay_index_fixed gen_tail_repair gen_put_meta_first gen_slab_mirror.
 
 (* ---------------------------------------------------------------- the property oracle *)
 (* number of calls whose last byte is at or before offset k (= acknowledged before the crash) *)
